@@ -39,7 +39,8 @@ def theorem_for(d):
     return "Ufw.Props.C01 (set_get / set_storage / set_refused / set_unsafe_spec)"
 
 
-AREAS = {"mem": "16:12:rw:M", "cb": "16:12:rw:CRW", "nowrite": "16:12:rw:CR-", "ro-flag": "16:12:r:M"}
+AREAS = {"mem": "16:12:rw:M", "cb": "16:12:rw:CRW", "cbx": "16:12:rw:CRWX",      # cbx: the write hook re-enters register_get
+         "nowrite": "16:12:rw:CR-", "ro-flag": "16:12:r:M"}
 
 
 def table_line(be, akind, ty, chk):
@@ -56,7 +57,7 @@ def cases(tier, seed):
         cks = checks(ty)
         for cname, chk in cks.items():
             for be in (0, 1):
-                for akind in ("mem", "cb"):
+                for akind in ("mem", "cb", "cbx"):
                     nrand = 12 if tier == "quick" else 200
                     if tier == "thorough" and BITS[ty] == 16 and cname in ("trivial", "range") and akind == "mem":
                         vals = list(range(65536))
